@@ -22,6 +22,15 @@ Four monitor groups, all on the real classes through their public API only:
              parameters: energy density, polarisation, pointing, generated and attached geometry, wavelengths,
              binned spectrum, density values; every reported accessor is compared with the value that was set.
              A mismatch that appears right after a setter is blamed on that setter (key = class.setter + observable).
+             Three objects are compared after construction and after every setter: the live one, one constructed
+             directly from the final parameters (all keywords, or default-valued keywords omitted / no arguments) and one
+             constructed from different values and brought there through every setter; direct vs setter path has its
+             own key.  Histories contain no-op assignments (the value the attribute already has) and A -> B -> A.
+  formula  : on every profile object judged by quad / history (all three construction paths) get_energy_density at fixed
+             multiples of the documented sigmas against the normalised Gaussian that the documented standard deviations
+             and the stated integral define (sigma_z = c*tau for any tau, 1 ns or 1 s; Gaussian beam in the waist plane only).
+  Parameter values equal to constructor defaults and to the presets written before the setters run (1, 0.1, 0.05, 0.01,
+  1e-3, 0, 1e3) are drawn with ~20-60 % probability per parameter; 6 % of the profile objects are the no-argument object.
 """
 import math
 
@@ -34,6 +43,8 @@ RULE = ("cases are drawn per kind: 'quad' (profile class, E_p 1e-3..1e2 J, tau 1
         "1-3 axial positions), 'tiling' (radius x length incl. length < 2 radius, length = k*2*radius +- 1 ulp, decimal "
         "radii, ratios up to 2000, via the function / a profile / an attached Laser), 'spectrum' (range 1e-3..1e2 nm "
         "wide at 300..1100 nm, 1..500 bins, Gaussian mean centred / inside / on an edge / outside / spanned), "
+        "every profile parameter takes a constructor-default / preset value with probability 0.15..0.6, objects are built with all "
+        "keywords, with default-valued keywords omitted (incl. no arguments) or through their setters from other values; "
         "'history' (one of the six classes, 1..12 (thorough: ..30) random valid setter calls, profiles attached to a Laser node); a case is "
         "non-trivial when at least one deciding comparison (certified quadrature, tiling chain, bin integral, or a "
         "live-vs-fresh comparison after >= 1 setter) was evaluated; distinct = distinct fully expanded case dicts")
@@ -64,7 +75,7 @@ QUICK = dict(cases=800, workers=2, timecap=45)
 THOROUGH = dict(cases=40000, workers=16, timecap=600)
 REQUIRED = {"quad_xsec": 60, "quad_volume": 4, "quad_uniform": 8, "tiling_lists": 40, "bins": 2000, "sum": 40,
             "sum_unity": 20, "density": 300, "hist_steps": 300, "hist_energy_density": 1000, "hist_geometry": 100,
-            "hist_psd": 1000, "reported": 1500, "width": 60}
+            "hist_psd": 1000, "reported": 1500, "width": 60, "formula": 2000, "construct_paths": 300}
 
 C_LIGHT = 299792458.0      # m/s, exact by SI definition (own constant, not imported from cherab)
 PROFILES = ("UniformEnergyDensity", "ConstantBivariateGaussian", "TrivariateGaussian", "GaussianBeamAxisymmetric")
@@ -75,6 +86,25 @@ PROFILE_PARAMS = {
     "TrivariateGaussian": ("pulse_energy", "pulse_length", "mean_z", "laser_length", "laser_radius", "stddev_x", "stddev_y"),
     "GaussianBeamAxisymmetric": ("pulse_energy", "pulse_length", "laser_length", "laser_radius", "waist_z", "stddev_waist",
                                  "laser_wavelength"),
+}
+# constructor defaults as written in the __init__ signatures (verified at run time against a no-argument object before
+# any keyword is omitted; if the table is out of date the omission is skipped and counted, never judged)
+DEFAULTS = {
+    "UniformEnergyDensity": dict(energy_density=1.0, laser_length=1.0, laser_radius=0.05, polarization=[0.0, 1.0, 0.0]),
+    "ConstantBivariateGaussian": dict(pulse_energy=1.0, pulse_length=1.0, laser_radius=0.05, laser_length=1.0, stddev_x=0.01,
+                                      stddev_y=0.01, polarization=[0.0, 1.0, 0.0]),
+    "TrivariateGaussian": dict(pulse_energy=1.0, pulse_length=1.0, mean_z=0.0, laser_length=1.0, laser_radius=0.05,
+                               stddev_x=0.01, stddev_y=0.01, polarization=[0.0, 1.0, 0.0]),
+    "GaussianBeamAxisymmetric": dict(pulse_energy=1.0, pulse_length=1.0, laser_length=1.0, laser_radius=0.05, waist_z=0.0,
+                                     stddev_waist=0.01, laser_wavelength=1e3, polarization=[0.0, 1.0, 0.0]),
+}
+# values that coincide with constructor defaults or with the presets written into the attributes before the setters run
+# (profile.pyx: 1, 0.1, 0.05, 1e3; math_functions.pyx: 1, 1e-3, 0): a setter that short-cuts on "unchanged" or a derived
+# quantity that is only refreshed by a setter shows up exactly there
+SPECIAL = {
+    "pulse_energy": (1.0,), "pulse_length": (1.0,), "energy_density": (1.0,), "stddev_x": (0.1, 0.01, 1.0),
+    "stddev_y": (0.1, 0.01, 1.0), "stddev_waist": (0.1, 0.01, 1e-3), "laser_wavelength": (1e3,), "laser_radius": (0.05,),
+    "laser_length": (1.0,), "mean_z": (0.0, 1.0), "waist_z": (0.0,), "polarization": ([0.0, 1.0, 0.0],),
 }
 CERT = 1e-10       # refinement certificate for the quadrature
 QTOL = 1e-9        # relative tolerance of the conservation statements (DESIGN C18)
@@ -134,7 +164,13 @@ def _draw_zpos(rng, length):
     return float(length * (1 + rng.uniform(0, 2)))
 
 
-def _draw_param(rng, name, P):
+def _draw_param(rng, name, P, special=0.2):
+    if special and rng.random() < special:
+        pool = SPECIAL[name]
+        v = pool[int(rng.integers(len(pool)))]
+        if name == "laser_radius" and P.get("laser_length", 0.0) / (2 * v) > 400:
+            return _draw_param(rng, name, P, 0.0)
+        return list(v) if isinstance(v, list) else float(v)
     if name == "pulse_energy":
         return _lu(rng, -3, 2)
     if name == "pulse_length":
@@ -160,16 +196,25 @@ def _draw_param(rng, name, P):
 
 
 def _draw_profile(rng, cls):
+    u = rng.random()
+    if u < 0.06:
+        return {k: (list(v) if isinstance(v, list) else v) for k, v in DEFAULTS[cls].items()}     # the no-argument object
+    special = 0.6 if u < 0.25 else 0.15        # mostly-default objects with a few keywords / mostly random ones
     P = {}
-    P["laser_radius"] = _draw_param(rng, "laser_radius", P)
-    P["laser_length"] = _draw_param(rng, "laser_length", P)
+    P["laser_radius"] = _draw_param(rng, "laser_radius", P, special)
+    P["laser_length"] = _draw_param(rng, "laser_length", P, special)
     for n in PROFILE_PARAMS[cls]:
         if n not in P:
-            P[n] = _draw_param(rng, n, P)
+            P[n] = _draw_param(rng, n, P, special)
     if "stddev_y" in P and rng.random() < 0.1:
         P["stddev_y"] = P["stddev_x"]
-    P["polarization"] = _draw_pol(rng)
+    P["polarization"] = _draw_param(rng, "polarization", P, special)
     return P
+
+
+def _draw_via(rng):
+    """how the judged object comes into being: all keywords / default-valued keywords omitted / reached by setters"""
+    return ["direct", "omit", "omit", "setters"][int(rng.integers(4))]
 
 
 def _draw_range(rng):
@@ -233,7 +278,7 @@ def _gen_quad(rng):
             zs.append(0.0 if u < 0.15 else (float(L) if u < 0.3 else float(rng.uniform(0, L))))
         if cls == "GaussianBeamAxisymmetric" and 0 <= P["waist_z"] <= L and rng.random() < 0.5:
             zs[0] = P["waist_z"]
-    return dict(kind="quad", cls=cls, params=P, zs=zs)
+    return dict(kind="quad", cls=cls, params=P, zs=zs, via=_draw_via(rng))
 
 
 def _gen_tiling(rng):
@@ -278,12 +323,23 @@ def _gen_history(rng, tier="quick"):
         P = _draw_profile(rng, cls)
         init = dict(P)
         names = list(PROFILE_PARAMS[cls]) + ["polarization"]
+        before = {}
         for _ in range(nops):
             n = names[int(rng.integers(len(names)))]
-            v = _draw_param(rng, n, P)
+            u = rng.random()
+            if u < 0.15:
+                v = P[n]                                   # no-op assignment: the value the attribute already has
+            elif u < 0.3 and n in before:
+                v = before[n]                              # A -> B -> A
+            else:
+                v = _draw_param(rng, n, P)
+            if n == "laser_radius" and P["laser_length"] / (2 * v) > 400:
+                v = P[n]
+            before[n] = P[n]
             P[n] = v
             ops.append([n, v])
-        return dict(kind="history", cls=cls, init=init, ops=ops, attach=bool(rng.random() < 0.8))
+        return dict(kind="history", cls=cls, init=init, ops=ops, attach=bool(rng.random() < 0.8),
+                    via=["direct", "omit"][int(rng.integers(2))])
     cls = SPECTRA[ci - 4]
     mn, mx = _draw_range(rng)
     S = dict(min_wavelength=mn, max_wavelength=mx, bins=_draw_bins(rng))
@@ -292,9 +348,16 @@ def _gen_history(rng, tier="quick"):
         _, S["mean"], S["stddev"] = _draw_gauss(rng, mn, mx)
         names += ["mean", "stddev", "mean", "stddev"]
     init = dict(S)
+    before = {}
     for _ in range(nops):
         n = names[int(rng.integers(len(names)))]
-        if n == "bins":
+        u = rng.random()
+        if u < 0.15:
+            v = S[n]                                       # no-op assignment
+        elif u < 0.3 and n in before and (n != "min_wavelength" or before[n] < S["max_wavelength"]) \
+                and (n != "max_wavelength" or before[n] > S["min_wavelength"]):
+            v = before[n]                                  # A -> B -> A
+        elif n == "bins":
             v = _draw_bins(rng)
         elif n == "min_wavelength":
             w = _lu(rng, -3, 2)
@@ -308,9 +371,10 @@ def _gen_history(rng, tier="quick"):
         else:
             v = _draw_gauss(rng, S["min_wavelength"], S["max_wavelength"])[2]
         v = int(v) if n == "bins" else float(v)
+        before[n] = S[n]
         S[n] = v
         ops.append([n, v])
-    return dict(kind="history", cls=cls, init=init, ops=ops, attach=False)
+    return dict(kind="history", cls=cls, init=init, ops=ops, attach=False, via="direct")
 
 
 def gen_case(rng, tier):
@@ -347,6 +411,23 @@ def fixed_cases(tier):
     for cls in PROFILES:
         for n in list(PROFILE_PARAMS[cls]) + ["polarization"]:
             out.append(dict(kind="history", cls=cls, init=inits[cls], ops=[[n, new[n]]], attach=True))
+    # constructor defaults / presets: the no-argument object, every single default-valued parameter in an otherwise
+    # generic object (all construction paths), no-op assignments and A -> B -> A on every setter
+    for cls in PROFILES:
+        zs = [] if cls == "TrivariateGaussian" else [0.0, 0.4]
+        for via in ("omit", "direct", "setters"):
+            out.append(dict(kind="quad", cls=cls, params=dict(DEFAULTS[cls]), zs=zs, via=via))
+        for n in list(PROFILE_PARAMS[cls]) + ["polarization"]:
+            for v in SPECIAL[n]:
+                P = dict(inits[cls])
+                P[n] = v
+                if cls == "GaussianBeamAxisymmetric" and n == "waist_z":
+                    zs = [float(v), 0.4]
+                out.append(dict(kind="quad", cls=cls, params=P, zs=zs, via="omit" if v == DEFAULTS[cls][n] else "direct"))
+            out.append(dict(kind="history", cls=cls, init=inits[cls], attach=True, via="direct",
+                            ops=[[n, inits[cls][n]], [n, new[n]], [n, inits[cls][n]], [n, inits[cls][n]]]))
+            out.append(dict(kind="history", cls=cls, init=dict(DEFAULTS[cls]), attach=True, via="omit",
+                            ops=[[n, DEFAULTS[cls][n]], [n, new[n]], [n, DEFAULTS[cls][n]]]))
     SC = dict(min_wavelength=1059.0, max_wavelength=1069.0, bins=20)
     SG = dict(SC, mean=1064.0, stddev=0.8)
     for n, v in (("min_wavelength", 1061.5), ("max_wavelength", 1066.25), ("bins", 7)):
@@ -355,6 +436,10 @@ def fixed_cases(tier):
         out.append(dict(kind="history", cls="GaussianSpectrum", init=SG, ops=[[n, v]], attach=False))
     out.append(dict(kind="history", cls="GaussianSpectrum", init=SG, attach=False,
                     ops=[["mean", 1062.0], ["bins", 11], ["stddev", 0.2], ["max_wavelength", 1070.0], ["mean", 1065.0]]))
+    for n, v in (("min_wavelength", 1061.5), ("max_wavelength", 1066.25), ("bins", 7), ("mean", 1062.0), ("stddev", 2.5)):
+        out.append(dict(kind="history", cls="GaussianSpectrum", init=SG, attach=False, ops=[[n, SG[n]], [n, v], [n, SG[n]]]))
+        if n in SC:
+            out.append(dict(kind="history", cls="ConstantSpectrum", init=SC, attach=False, ops=[[n, SC[n]], [n, v], [n, SC[n]]]))
     # spectra: documented example, suite example, one bin, ranges known to lose an edge by rounding
     for mn, mx, b in ((1063.9, 1064.1, 1), (1039.9, 1040.1, 10), (1059.0, 1069.0, 20), (400.0, 400.7, 3), (300.7, 300.9, 1), (512.1, 512.4, 2),
                       (1063.9, 1064.1, 7), (532.0, 532.3, 49), (694.3, 694.301, 500)):
@@ -419,19 +504,116 @@ def _defcls(obj, name):
     return type(obj).__name__
 
 
-def _mk_profile(cls, P):
+_DEFAULTS_OK = {}
+
+
+def _defaults_ok(cls, ctx=None):
+    """the DEFAULTS table describes what a no-argument object reports (observed, cached per worker)"""
+    if cls not in _DEFAULTS_OK:
+        import cherab.core.model.laser.profile as pm
+        o = getattr(pm, cls)()
+        D = DEFAULTS[cls]
+        a = o.get_polarization(0.0, 0.0, 0.0)
+        _DEFAULTS_OK[cls] = all(getattr(o, n) == D[n] for n in PROFILE_PARAMS[cls]) and [a.x, a.y, a.z] == D["polarization"]
+    if not _DEFAULTS_OK[cls] and ctx is not None:
+        ctx.skip("defaults-table-outdated:" + cls)
+    return _DEFAULTS_OK[cls]
+
+
+def _mk_profile(cls, P, via="direct", ctx=None):
+    """direct: every keyword given; omit: keywords whose value equals the constructor default are left out (an
+    all-default parameter set is the no-argument object); setters: built from different values, then every parameter is
+    assigned through its setter"""
     from raysect.core import Vector3D
     import cherab.core.model.laser.profile as pm
+    if via == "setters":
+        Q = {}
+        for k, v in P.items():
+            if k == "polarization":
+                Q[k] = [v[1] + 0.3, -v[2] + 0.2, v[0] - 0.5]
+                if sum(c * c for c in Q[k]) < 0.01:
+                    Q[k][0] += 1.0
+            elif k in ("mean_z", "waist_z"):
+                Q[k] = 1.7 * v + 0.37
+            else:
+                Q[k] = 1.7 * v
+        o = _mk_profile(cls, Q)
+        for k in PROFILE_PARAMS[cls]:
+            setattr(o, k, P[k])
+        o.set_polarization(Vector3D(*P["polarization"]))
+        return o
     kw = {k: v for k, v in P.items() if k != "polarization"}
     kw["polarization"] = Vector3D(*P["polarization"])
+    if via == "omit" and _defaults_ok(cls, ctx):
+        kw = {k: v for k, v in kw.items() if P[k] != DEFAULTS[cls][k]}
     return getattr(pm, cls)(**kw)
 
 
-def _mk_spectrum(cls, S):
+def _mk_spectrum(cls, S, via="direct"):
     import cherab.core.model.laser.laserspectrum as sm
+    if via == "setters":
+        Q = dict(S, min_wavelength=0.5 * S["min_wavelength"], max_wavelength=2.0 * S["max_wavelength"], bins=S["bins"] + 3)
+        if "mean" in S:
+            Q.update(mean=1.01 * S["mean"], stddev=1.7 * S["stddev"])
+        o = _mk_spectrum(cls, Q)
+        for k in ("min_wavelength", "max_wavelength", "bins", "mean", "stddev"):
+            if k in S:
+                setattr(o, k, S[k])
+        return o
     if cls == "ConstantSpectrum":
         return sm.ConstantSpectrum(S["min_wavelength"], S["max_wavelength"], S["bins"])
     return sm.GaussianSpectrum(S["min_wavelength"], S["max_wavelength"], S["bins"], S["mean"], S["stddev"])
+
+
+def _formula_points(cls, P):
+    """points at fixed multiples of the documented sigmas (any scale: sigma_z may be millimetres or 3e8 m)"""
+    if cls == "UniformEnergyDensity":
+        R, L = P["laser_radius"], P["laser_length"]
+        return [(0.0, 0.0, 0.0), (0.5 * R, -0.3 * R, 0.4 * L), (-0.7 * R, 0.1 * R, L)]
+    if cls == "GaussianBeamAxisymmetric":
+        sx = sy = P["stddev_waist"]
+        zs = [P["waist_z"]]                       # only the waist plane is free of the Rayleigh-range convention
+    elif cls == "TrivariateGaussian":
+        sx, sy, sz = P["stddev_x"], P["stddev_y"], C_LIGHT * P["pulse_length"]
+        zs = [P["mean_z"] + f * sz for f in (0.0, 1.0, -2.0, 0.5)]
+    else:
+        sx, sy = P["stddev_x"], P["stddev_y"]
+        zs = [0.0, 0.61 * P["laser_length"]]
+    return [(fx * sx, fy * sy, z) for z in zs for fx, fy in ((0.0, 0.0), (0.7, -0.4), (-1.3, 1.1), (2.1, 0.0), (0.0, -2.6))]
+
+
+def _formula_ref(cls, P, pts):
+    """the normalised Gaussian fixed by the documented standard deviations and the integral the property states"""
+    pts = np.asarray(pts, dtype=float)
+    x, y, z = pts[:, 0], pts[:, 1], pts[:, 2]
+    if cls == "UniformEnergyDensity":
+        return np.full(len(pts), P["energy_density"]), np.zeros(len(pts))
+    if cls == "TrivariateGaussian":
+        sx, sy, sz = P["stddev_x"], P["stddev_y"], C_LIGHT * P["pulse_length"]
+        arg = 0.5 * ((x / sx) ** 2 + (y / sy) ** 2 + ((z - P["mean_z"]) / sz) ** 2)
+        amp = P["pulse_energy"] / ((2 * math.pi) ** 1.5 * sx * sy * sz)
+    else:
+        sx, sy = (P["stddev_waist"],) * 2 if cls == "GaussianBeamAxisymmetric" else (P["stddev_x"], P["stddev_y"])
+        arg = 0.5 * ((x / sx) ** 2 + (y / sy) ** 2)
+        amp = P["pulse_energy"] / (C_LIGHT * P["pulse_length"]) / (2 * math.pi * sx * sy)
+    ref = amp * np.exp(-arg)
+    return ref, ref * (1e-10 + 1e-14 * arg)
+
+
+def _judge_formula(ctx, cls, obj, P, seen=None):
+    pts = _formula_points(cls, P)
+    ref, tol = _formula_ref(cls, P, pts)
+    bad, g, w, t = _cmp(ctx, [obj.get_energy_density(*q) for q in pts], ref, tol, "formula")
+    if bad.any() and (seen is None or "formula" not in seen):
+        if seen is not None:
+            seen.add("formula")
+        i = int(np.argmax(bad))
+        ctx.viol("formula:%s:energy-density-not-the-documented-gaussian" % cls,
+                 "get_energy_density differs from the normalised Gaussian given by the documented standard deviations and the "
+                 "integral the property states (pulse_energy/(c*pulse_length) per cross-section, pulse_energy per volume)",
+                 point=[float(c) for c in pts[i]], got=float(g[i]), want=float(w[i]), n_bad=int(bad.sum()))
+        return False
+    return True
 
 
 def _trap_w(n, h):
@@ -523,9 +705,17 @@ def _judge_widths(ctx, cls, items):
 
 def _run_quad(case, ctx):
     cls, P = case["cls"], case["params"]
+    via = case.get("via", "direct")
     ctx.cls("quad:" + cls)
-    p = _mk_profile(cls, P)
+    ctx.cls("quad-via:" + via)
+    if P == DEFAULTS[cls]:
+        ctx.cls("quad:all-defaults")
+    ndef = sum(1 for k in PROFILE_PARAMS[cls] if P[k] == DEFAULTS[cls][k])
+    ctx.cls("quad-default-valued-params:%s" % ("0" if ndef == 0 else ("1-2" if ndef < 3 else "3+")))
+    p = _mk_profile(cls, P, via, ctx)
     E = p.get_energy_density
+    if _judge_formula(ctx, cls, p, P):
+        ctx.nontrivial()
     if cls == "UniformEnergyDensity":
         eps, R = P["energy_density"], P["laser_radius"]
         gx, gw = np.polynomial.legendre.leggauss(6)
@@ -895,7 +1085,11 @@ def _reported(ctx, obj, M, cls, seen):
 
 
 def _run_history(case, ctx):
+    """live object driven by the setter history; after construction and after every setter it is compared with
+    D = an object constructed directly from the modelled parameters (all keywords, or default-valued ones omitted) and
+    S = an object constructed from different values and brought to the modelled parameters through every setter."""
     cls, ops = case["cls"], case["ops"]
+    via = case.get("via", "direct")
     ctx.cls("history:" + cls)
     M = dict(case["init"])
     is_prof = cls in PROFILES
@@ -903,45 +1097,70 @@ def _run_history(case, ctx):
     if is_prof:
         from raysect.core import Vector3D
         from cherab.core.laser import Laser
-        live = _mk_profile(cls, M)
+        live = _mk_profile(cls, M, via, ctx)
         if case.get("attach"):
             laser = Laser()
             laser.laser_profile = live
     else:
         live = _mk_spectrum(cls, M)
     seen = set()
-    _reported(ctx, live, M, cls, seen)
     prev = set()
-    for name, value in ops:
-        # apply to the live object through the public API, and to the model
-        if name == "polarization":
-            live.set_polarization(Vector3D(*value))
-            setter = "set_polarization"
-        else:
-            setattr(live, name, value)
-            setter = name
-        M[name] = value
-        # a brand-new object (and Laser node) from the modelled parameters
+    kinds = set()
+    for step, (name, value) in enumerate([(None, None)] + [tuple(o) for o in ops]):
+        setter = None
+        if name is not None:
+            # apply to the live object through the public API, and to the model
+            was_noop = bool(value == M[name])
+            kinds.add("noop" if was_noop else "change")
+            if name == "polarization":
+                live.set_polarization(Vector3D(*value))
+                setter = "set_polarization"
+            else:
+                setattr(live, name, value)
+                setter = name
+            M[name] = value
+        # brand-new objects (and Laser nodes) from the modelled parameters: direct and through the setters
         if is_prof:
-            fresh = _mk_profile(cls, M)
-            flaser = None
+            objs = [_mk_profile(cls, M, via, ctx), _mk_profile(cls, M, "setters")]
+            lasers = [None, None]
             if laser is not None:
-                flaser = Laser()
-                flaser.laser_profile = fresh
+                for k in (0, 1):
+                    lasers[k] = Laser()
+                    lasers[k].laser_profile = objs[k]
             pts = _profile_points(M)
-            lo, fo = _observe_profile(live, laser, pts), _observe_profile(fresh, flaser, pts)
+            lo = _observe_profile(live, laser, pts)
+            do, so = (_observe_profile(o, l_, pts) for o, l_ in zip(objs, lasers))
+            _judge_formula(ctx, cls, live, M, seen)
+            _judge_formula(ctx, cls, objs[0], M, seen)
         else:
-            fresh = _mk_spectrum(cls, M)
-            lo, fo = _observe_spectrum(live, M), _observe_spectrum(fresh, M)
+            objs = [_mk_spectrum(cls, M), _mk_spectrum(cls, M, "setters")]
+            lo = _observe_spectrum(live, M)
+            do, so = (_observe_spectrum(o, M) for o in objs)
         ctx.mon("hist_steps")
+        ctx.mon("construct_paths")
         ctx.nontrivial()
-        mism = _diff(ctx, lo, fo)
-        for obs in sorted(set(mism) - prev):
-            ctx.viol("history:%s.%s:stale:%s" % (_defcls(live, setter), setter, obs),
-                     "after this setter the live object's %s differs from a freshly constructed object's" % obs,
-                     setter=setter, observable=obs, **mism[obs])
-        prev = set(mism)
+        m_ld, m_ls, m_ds = _diff(ctx, lo, do), _diff(ctx, lo, so), _diff(ctx, do, so)
+        for obs in sorted(m_ds):
+            if ("construct", obs) not in seen:
+                seen.add(("construct", obs))
+                ctx.viol("construct:%s:direct-construction-vs-setter-path:%s" % (cls, obs),
+                         "an object constructed directly with the final parameters and one that reached them through its "
+                         "setters from different values disagree on %s" % obs,
+                         observable=obs, step=step, default_keywords_omitted=(via == "omit"),
+                         **{("direct" if k == "live" else "via_setters" if k == "fresh" else k): v for k, v in m_ds[obs].items()})
+        stale = set(m_ld) & set(m_ls)
+        if setter is not None:
+            for obs in sorted(stale - prev):
+                ctx.viol("history:%s.%s:stale:%s" % (_defcls(live, setter), setter, obs),
+                         "after this setter the live object's %s differs from freshly built objects'" % obs,
+                         setter=setter, observable=obs, noop_assignment=was_noop,
+                         **m_ld[obs])
+        prev = stale
         _reported(ctx, live, M, cls, seen)
+        if step == 0:
+            _reported(ctx, objs[1], M, cls, seen)
+    for k in kinds:
+        ctx.cls("history-op:" + k)
 
 
 def run_case(case, ctx):
